@@ -37,6 +37,72 @@ def _returned_strings(f) -> set[str]:
     return {n.value.value for n in ast.walk(f.node) if isinstance(n, ast.Return) and isinstance(n.value, ast.Constant) and isinstance(n.value.value, str) and n.value.value}
 
 
+def _searched_kinds(repo, g, marker, kinds):
+    """Sibling kinds whose text can reach the `marker in <text>` test of g (helpers included).  A kind that is only
+    stepped over (`elif sib.type not in COMMENTS: break`, or a list builder that appends attribute items only) is not
+    searched.  The guards enclosing the containment test - and, when the siblings are first collected into a list, the
+    guards enclosing the append - are evaluated for every kind the code mentions."""
+    funcs = [g] + [h for h in inline.callees(repo, g) if h.module is g.module]
+
+    def ev(t, k):
+        if isinstance(t, ast.Compare) and len(t.ops) == 1 and isinstance(t.left, ast.Attribute) and t.left.attr == "type":
+            v = repo.fold(g.module, t.comparators[0])
+            vs = {v} if isinstance(v, str) else set(v) if isinstance(v, (tuple, list, set, frozenset)) else None
+            if vs is None:
+                return None
+            op = t.ops[0]
+            if isinstance(op, (ast.Eq, ast.In)):
+                return k in vs
+            if isinstance(op, (ast.NotEq, ast.NotIn)):
+                return k not in vs
+            return None
+        if isinstance(t, ast.UnaryOp) and isinstance(t.op, ast.Not):
+            v = ev(t.operand, k)
+            return None if v is None else not v
+        if isinstance(t, ast.BoolOp):
+            vs = [ev(x, k) for x in t.values]
+            if isinstance(t.op, ast.And):
+                return False if any(v is False for v in vs) else None if any(v is None for v in vs) else True
+            return True if any(v is True for v in vs) else None if any(v is None for v in vs) else False
+        return None
+
+    def admitted(f, sink):
+        par = {c: p_ for p_ in ast.walk(f.node) for c in ast.iter_child_nodes(p_)}
+        conds = []
+        cur = sink
+        while cur in par:
+            up = par[cur]
+            if isinstance(up, (ast.If, ast.While)) and cur is not up.test:
+                conds.append((up.test, not (isinstance(up, ast.If) and cur in up.orelse)))
+            elif isinstance(up, ast.IfExp) and cur is not up.test:
+                conds.append((up.test, cur is up.body))
+            elif isinstance(up, (ast.ListComp, ast.GeneratorExp, ast.SetComp)):
+                for gen in up.generators:
+                    conds += [(i_, True) for i_ in gen.ifs]
+            elif isinstance(up, ast.BoolOp) and isinstance(up.op, ast.And):
+                conds += [(v, True) for v in up.values[: up.values.index(cur)]] if cur in up.values else []
+            cur = up
+        # an earlier `if <kind test>: break/continue/return` in the same loop body also filters what reaches the sink
+        out = set()
+        for k in kinds | {"attribute_item"}:
+            if all(ev(t, k) in (pol, None) for t, pol in conds):
+                out.add(k)
+        return out
+
+    contain_adm, append_adm = None, None
+    for f in funcs:
+        for n in ast.walk(f.node):
+            if isinstance(n, ast.Compare) and len(n.ops) == 1 and isinstance(n.ops[0], ast.In) and repo.fold(f.module, n.left) == marker:
+                a = admitted(f, n)
+                contain_adm = a if contain_adm is None else contain_adm | a
+            if isinstance(n, ast.Call) and isinstance(n.func, ast.Attribute) and n.func.attr in ("append", "add", "insert", "appendleft"):
+                a = admitted(f, n)
+                append_adm = a if append_adm is None else append_adm | a
+    if contain_adm is None:
+        return set()
+    return contain_adm & append_adm if append_adm is not None else contain_adm
+
+
 def check(run, ctx):
     repo = ctx.repo
     R1 = run.rule("R1", "classifier return strings = keys(_PATTERN_BUILDERS) = keys(_PATTERN_CONFIG_KEYS); config-key values are fields from_dict reads", floor=12,
@@ -151,7 +217,7 @@ def check(run, ctx):
                  for v_ in ([repo.fold(g.module, c_)] if isinstance(repo.fold(g.module, c_), str) else list(repo.fold(g.module, c_)) if isinstance(repo.fold(g.module, c_), (tuple, list, set, frozenset)) else [])}
         contain = [n for n in flat if isinstance(n, ast.Compare) and len(n.ops) == 1 and isinstance(n.ops[0], ast.In) and repo.fold(g.module, n.left) == marker]
         narrower = [n for n in flat if isinstance(n, ast.Call) and call_name(n) in ("endswith", "startswith", "fullmatch") or (isinstance(n, ast.Compare) and isinstance(n.ops[0], ast.Eq) and isinstance(repo.fold(g.module, n.comparators[0]), str) and "test" in str(repo.fold(g.module, n.comparators[0])))]
-        extra_kinds = sorted(k_ for k_ in sib_kinds if k_ not in ("attribute_item", "inner_attribute_item"))
+        extra_kinds = sorted(k_ for k_ in _searched_kinds(repo, g, marker, sib_kinds) if k_ not in ("attribute_item", "inner_attribute_item"))
         if extra_kinds:
             run.finding(R8, fn_, f"non-attribute-siblings:{extra_kinds}", f"{fn_} also reads {extra_kinds} siblings: their text is searched for {marker!r} like an attribute's, so a comment containing the word (\"latest\", \"Fastest\") turns production code into test code and its findings disappear", g.loc)
         elif not contain or narrower:
@@ -159,6 +225,23 @@ def check(run, ctx):
             run.finding(R8, fn_, f"marker-test:{w_[:50]}", f"{fn_} no longer recognises the attribute by `{marker!r} in <text>` ({w_}): attributes that carry arguments or a path (#[tokio::test(flavor = \"multi_thread\")], #[test_case(1, 2)]) are not seen as test code", g.loc)
         else:
             run.ok(R8, fn_, f"{marker!r} in <text of preceding attribute_item siblings>")
+
+    # which marker decides for which item kind: `test` for functions, the narrower `cfg(test)` for modules
+    itc = repo.func("src.analyzers.rust_context._is_test_context")
+    disp = {}
+    for n in ast.walk(itc.node):
+        if isinstance(n, ast.If) and isinstance(n.test, ast.Compare) and isinstance(n.test.left, ast.Attribute) and n.test.left.attr == "type" and isinstance(n.test.ops[0], (ast.Eq, ast.In)):
+            v = repo.fold(itc.module, n.test.comparators[0])
+            ks = [v] if isinstance(v, str) else list(v) if isinstance(v, (tuple, list, set, frozenset)) else []
+            hs = [call_name(r.value) for r in ast.walk(n) if isinstance(r, ast.Return) and isinstance(r.value, ast.Call)]
+            for k_ in ks:
+                disp.setdefault(k_, set()).update(hs)
+    want = {"function_item": {"has_test_attribute"}, "mod_item": {"has_cfg_test_attribute"}}
+    for k_, hs in want.items():
+        if disp.get(k_) == hs:
+            run.ok(R8, f"_is_test_context[{k_}]", f"decided by {sorted(hs)[0]}")
+        else:
+            run.finding(R8, "_is_test_context", f"dispatch:{k_}->{sorted(disp.get(k_, []))}", f"_is_test_context decides a {k_} through {sorted(disp.get(k_, [])) or 'nothing'} instead of {sorted(hs)[0]}: a module is test code only under #[cfg(test)] - with the function marker (`test` anywhere in the attribute) #[cfg(not(test))] or #[cfg(feature = \"test-util\")] modules count as tests and their findings disappear", itc.loc)
 
     R6 = run.rule("R6", "call records take line = node.start_point[0] + 1, column = node.start_point[1] and is_in_test from the same node", floor=3)
     for pkg, rec in (("unwrap_abuse", "UnwrapCall"), ("clone_abuse", "CloneCall"), ("blocking_async", "BlockingCall")):
@@ -225,6 +308,28 @@ def check(run, ctx):
                   decides="every risky call is found wherever it sits (closures, match arms, nested blocks, macro-free expressions)")
     for rec in shared.collector_walkers(ctx, prefixes=("src.linters.unwrap_abuse", "src.linters.clone_abuse", "src.linters.blocking_async", "src.analyzers.rust_base")):
         (run.ok(R7, rec["func"], rec["detail"]) if rec["ok"] else run.finding(R7, rec["func"], "pruned-walk", f"{rec['func']}: {rec['detail']}: calls below such a node are never reported", rec["loc"]))
+
+    # ... and exactly once: a recursive collector is started from the tree root, not once per item of an all-descendants listing
+    walkers = {rec["fq"] for rec in shared.collector_walkers(ctx, prefixes=("src.linters.unwrap_abuse", "src.linters.clone_abuse", "src.linters.blocking_async"))}
+    n_start = 0
+    for wq in sorted(walkers):
+        w = repo.funcs[wq]
+        for site in ctx.cg.sites_calling(wq):
+            caller = repo.funcs.get(site["caller"])
+            if caller is None or caller.qual == wq:
+                continue
+            call = next((n for n in ast.walk(caller.node) if isinstance(n, ast.Call) and call_name(n) == w.name), None)
+            if call is None:
+                continue
+            n_start += 1
+            loop = next((lp for lp in ast.walk(caller.node) if isinstance(lp, (ast.For, ast.ListComp, ast.GeneratorExp)) and lp is not call and any(x is call for x in ast.walk(lp))), None)
+            sym = f"{caller.qual.replace('src.linters.', '')} -> {w.name}"
+            if loop is None:
+                run.ok(R7, sym, "started once, from the root node")
+            else:
+                it = loop.iter if isinstance(loop, ast.For) else loop.generators[0].iter
+                run.finding(R7, caller.qual.replace("src.linters.", ""), f"walker-per-item:{norm(it)[:50]}", f"{caller.qual} starts the recursive collector {w.name} once per element of `{norm(it)[:60]}`: when those elements nest (a function inside a function, a block inside a block) the inner subtree is scanned once per enclosing element and every call in it is reported several times", f"{caller.module.rel}:{call.lineno}")
+    run.require(n_start >= 3, f"R7: only {n_start} start sites of the recursive call collectors found (one per Rust linter confirmed)")
 
     R5 = run.rule("R5", "node-kind literals in the Rust analyzers (shared and per linter) are named kinds / fields of the linked grammar", floor=40)
     g = ctx.grammar
